@@ -43,6 +43,10 @@ func (ds *dataStore) getStoreKey(keyName string) (sk *storeKey, exists bool) {
 	val, exists := ds.data.get(keyName)
 	if exists {
 		sk = val.(*storeKey)
+		if sk.isExpiredUnlocked() {
+			// an expired key that is still stored is a missing key for every caller
+			return nil, false
+		}
 		sk.lastAccess = time.Now()
 	}
 	return
